@@ -15,8 +15,11 @@ from . import core
 class SuiteCfg:
     def __init__(self, name, parts_thorough=16, timeout=3000, nontrivial=None, signature=None,
                  has_spec=False, describe="", kind="diff", observable=None, classify=None, env=None,
-                 stateless=False, tags="", suite_arg=None, should_shrink=None, binary=None):
+                 stateless=False, tags="", suite_arg=None, should_shrink=None, binary=None, crash_batch=16):
         self.name = name
+        # monitor suites: number of cases the harness runs concurrently (a crash is blamed on the
+        # batch that was running)
+        self.crash_batch = crash_batch
         self.parts_thorough = parts_thorough
         self.timeout = timeout
         # nontrivial(case_ops, impl_outs) -> bool
@@ -131,6 +134,12 @@ def analyse_part(prop, suite, tie, stats, failures, max_failures=12):
             if (bad or len(ver) != len(seg)) and len(failures) < max_failures:
                 failures.append({"suite": suite.name, "ops": seg, "impl": seg, "model": ver,
                                  "k": bad[0] if bad else len(ver)})
+        crash = getattr(tie, "crash", None)
+        if crash and len(failures) < max_failures:
+            failures.append({"suite": suite.name, "ops": crash["programs"],
+                             "impl": ["<crash> " + crash["message"]] + crash["stack"], "model": ["<no crash>"], "k": 0,
+                             "note": "the harness process died while it ran these programs (one concurrent batch): "
+                                     + crash["message"]})
         if len(mo) != len(io) and len(failures) < max_failures and not failures:
             failures.append({"suite": suite.name, "ops": io[-5:], "impl": io[-5:], "model": mo[-5:], "k": 0,
                              "note": "trace and verdict streams have different lengths"})
@@ -401,6 +410,19 @@ def execute_monitor(t, suite):
             p = subprocess.run(t.impl_cmd(), stdin=i, stdout=o, stderr=subprocess.PIPE, text=True,
                                timeout=suite.timeout, env=env)
             if p.returncode != 0:
+                # the harness process died (a panic on a goroutine of the code under test, or a fatal
+                # runtime error).  The programs it was running are the replay: the cases after the
+                # last one whose trace was written, one concurrent batch of them at most.
+                ops = open(t.path("ops")).read().split("\n")
+                done = sum(1 for l in open(t.path("impl")) if l.startswith("new"))
+                starts = core.split_cases(ops) + [len(ops)]
+                lo = starts[min(done, len(starts) - 1)]
+                hi = starts[min(done + suite.crash_batch, len(starts) - 1)]
+                msg = [l for l in p.stderr.split("\n") if l.startswith(("panic:", "fatal error:"))][:1]
+                stack = [l for l in p.stderr.split("\n") if "hop.computer/hop" in l][:8]
+                t.crash = {"programs": [l for l in ops[lo:hi] if l],
+                           "message": (msg[0] if msg else "exit status %d" % p.returncode),
+                           "stack": [l.strip() for l in stack]}
                 errs.append("impl exited %d: %s" % (p.returncode, p.stderr[-2000:]))
         except subprocess.TimeoutExpired:
             errs.append("impl timed out after %ds" % suite.timeout)
